@@ -179,6 +179,72 @@ def public_functions(ctx, names=None):
                 ctx.sample(desc0, limit=8)
 
 
+def recipe_functions(ctx):
+    """the same relations on ~40 public functions through call recipes (no model needed: relations between calls)"""
+    import recipes
+    rng = ctx.rng
+    R = [rc for rc in recipes.recipes() if rc.dims_kw]
+    for it in range(ctx.n(2, 12)):
+        for rc in R:
+            if not ctx.time_left():
+                return
+            xs = [recipes.mat(x) for x in rc.gen(rng)]
+            dd = []
+            for x in xs:
+                for d in x.dims:
+                    if d not in dd and d not in rc.nondata:
+                        dd.append(d)
+
+            def call(rd, pd):
+                kw = {}
+                if rd is not None:
+                    kw["reduce_dims"] = rd
+                if pd is not None:
+                    kw["preserve_dims"] = pd
+                return core.call_impl(rc.call, xs, **kw)
+            desc = {"fn": rc.name, "inputs": [gens.da_repr(x) for x in xs]}
+            ctx.count("recipe:" + rc.name)
+            ok, why = scorelib.same_result(call(None, None), call("all", None))
+            ctx.case((rc.name, "none=all", desc))
+            if not ok:
+                ctx.violation(f"{rc.name}: omitting both options differs from reduce_dims='all': {why}", desc, "equal", why)
+            subs = list(gens.subsets(dd))
+            if len(subs) > 4:
+                subs = [subs[0], subs[-1]] + rng.sample(subs[1:-1], 2)
+            for Rr in subs:
+                P = [d for d in dd if d not in Rr]
+                a, b = call(Rr, None), call(None, P)
+                ctx.case((rc.name, tuple(Rr), desc))
+                ok, why = scorelib.same_result(a, b)
+                if not ok:
+                    ctx.violation(f"{rc.name}: reduce_dims={Rr} differs from preserve_dims={P}: {why}", dict(desc, R=Rr), "identical", why)
+                if a[0] != "ok":
+                    ctx.violation(f"{rc.name}: reduce_dims={Rr} (a subset of the data dims) raises {a[1]}", dict(desc, R=Rr), "a value", a[1])
+                    continue
+                rdims = set(a[1].dims)
+                if rdims & set(dd) != set(dd) - set(Rr):
+                    ctx.violation(f"{rc.name}: data dims in the result {sorted(rdims & set(dd))} != data dims minus reduced {sorted(set(dd) - set(Rr))}",
+                                  dict(desc, R=Rr), sorted(set(dd) - set(Rr)), sorted(rdims))
+                if rdims & rc.specific:
+                    ctx.violation(f"{rc.name}: score-specific dimension(s) {sorted(rdims & rc.specific)} survive in the result", dict(desc, R=Rr), "none", sorted(rdims))
+                if len(Rr) == 1:
+                    ok, why = scorelib.same_result(call(Rr[0], None), a)
+                    if not ok:
+                        ctx.violation(f"{rc.name}: reduce_dims='{Rr[0]}' differs from reduce_dims=['{Rr[0]}']: {why}", dict(desc, R=Rr), "identical", why)
+                if len(P) == 1:
+                    ok, why = scorelib.same_result(call(None, P[0]), b)
+                    if not ok:
+                        ctx.violation(f"{rc.name}: preserve_dims='{P[0]}' differs from preserve_dims=['{P[0]}']: {why}", dict(desc, P=P), "identical", why)
+            if dd:
+                both = call(dd[:1], dd[:1])
+                if both != ("err", "err:ValueError"):
+                    ctx.violation(f"{rc.name}: naming both options does not raise ValueError", desc, "err:ValueError", str(both[1])[:100])
+            for bad in (call(["zz"], None), call(None, ["zz"])):
+                if bad != ("err", "err:ValueError"):
+                    ctx.violation(f"{rc.name}: naming a dimension that is not in the data does not raise ValueError", desc, "err:ValueError", str(bad[1])[:100])
+
+
 def run(ctx):
     public_functions(ctx)
+    recipe_functions(ctx)
     gather_sweep(ctx)
